@@ -476,7 +476,7 @@ class Tensor:
     
     def __iter__(self):
         self._current_idx = 0
-        return self
+        return (self[idx] for idx in range(len(self)))
     
     def __next__(self) -> 'Tensor':
         if self._current_idx >= len(self):
